@@ -113,6 +113,14 @@ def judge(ns, m1, seed, script=None):
 
 
 def report(ctx, n, m1, seed, sym, detail):
+    # bound the effort on a badly broken tree: after 8 minimised reports of one symptom in this shard the further
+    # occurrences are only counted (they would collapse into the same signatures anyway)
+    key = 'minimised reports: ' + sym.split(':')[0]
+    if ctx.counters[key] >= 8:
+        ctx.count('further occurrences not minimised: ' + sym.split(':')[0])
+        return
+    ctx.count(key)
+
     def fails(g):
         return judge([g], m1, seed, {})[0]
     canon = judge([n], m1, seed, {})[0] == sym
